@@ -87,6 +87,9 @@ type Case struct {
 	Hist []string `json:"hist,omitempty"`
 	// refresh
 	Rewrites []Rewrite `json:"rewrites,omitempty"`
+	// Spell (refresh, dual): how the plugin argument spells the file name (0 canonical, 1 with a
+	// "." element, 2 doubled separator, 3 through a sub-directory and back)
+	Spell int `json:"spell,omitempty"`
 	// dual: Lines is the DHCPv4 file, Lines6 the DHCPv6 file
 	Lines6   []Line `json:"lines6,omitempty"`
 	V6First  bool   `json:"v6first,omitempty"`
@@ -229,6 +232,22 @@ func Cleanup() {
 	if scratchDir != "" {
 		os.RemoveAll(scratchDir)
 	}
+}
+
+// spelled is the same file written the way a configuration might write it: with a "." element,
+// a doubled separator or a detour through a sub-directory (k = 0: as it is)
+func spelled(path string, k int) string {
+	dir, base := filepath.Dir(path), filepath.Base(path)
+	switch k {
+	case 1:
+		return dir + "/./" + base
+	case 2:
+		return dir + "//" + base
+	case 3:
+		os.MkdirAll(filepath.Join(dir, "sub"), 0o755)
+		return dir + "/sub/../" + base
+	}
+	return path
 }
 
 func newFile(text string) string {
@@ -773,9 +792,9 @@ func execRefresh(c Case) (res core.Result) {
 	var err error
 	watchers.Add(1)
 	if c.V6 {
-		ri.h6, err = file.Plugin.Setup6(path, "autorefresh")
+		ri.h6, err = file.Plugin.Setup6(spelled(path, c.Spell), "autorefresh")
 	} else {
-		ri.h4, err = file.Plugin.Setup4(path, "autorefresh")
+		ri.h4, err = file.Plugin.Setup4(spelled(path, c.Spell), "autorefresh")
 	}
 	if err != nil {
 		if inotifyExhausted(err) || strings.Contains(err.Error(), "watcher") {
@@ -953,7 +972,7 @@ func execDual(c Case) (res core.Result) {
 		c.Rewrites = nil
 	}
 	p4, p6 := newFile(string(padded(t4))), newFile(string(padded(t6)))
-	args4, args6 := []string{p4}, []string{p6}
+	args4, args6 := []string{spelled(p4, c.Spell)}, []string{spelled(p6, c.Spell)}
 	if c.Refresh4 {
 		args4 = append(args4, "autorefresh")
 		watchers.Add(1)
